@@ -17,5 +17,8 @@ func init() {
 		Stubs:  map[string]string{"(github.com/tailscale/setec/acl.Secret).Match": "verifMatchUF"},
 		Params: map[string]int{"rules": 2, "actions": 2, "patterns": 2}, ExpectReach: []string{"end"},
 		Desc: "Rules.Allow == exists rule (action listed and some pattern matches), Match uninterpreted; pure; monotone"})
+	c07.Harnesses = append(c07.Harnesses, &HarnessSpec{Name: "verifHarnessC07RuleReal", Pkg: "acl",
+		Params: map[string]int{"piecelen": 2, "namelen": 6}, ThoroughParams: map[string]int{"piecelen": 3, "namelen": 8}, ExpectReach: []string{"end"},
+		Desc: "one rule with two real patterns (0 or 1 star each): Rule.Allow == action listed and (glob(p1) or glob(p2)), whatever way the implementation combines the patterns"})
 	propRegistry = append(propRegistry, c07)
 }
